@@ -106,12 +106,19 @@ def run(chk, prog):
     wu = prog.fn("vfps::WakePotentialMap::update", nparams=0)
     chk.used(wu)
     s = I.scan(wu)
+    from .common import offset_copy_from_field
+    from .. import flow as Fl_
     cp = [c for c in s.calls if c.callee == "std::copy_n"]
-    ok = len(cp) == 1 and str(cp[0].args[0]) == "wakePotential(_field)" and str(cp[0].args[2]) == "data(_offset)"
-    others = [a for a in s.accesses if a.kind == "store" and a.base == "_offset" and getattr(a, "bulk", None) is None]   # (a plain copy loop counts as the copy)
-    chk.check(ok and not others, "R3", wu.where, "the kick offsets are the field's wake potential, copied without arithmetic", "WakePotentialMap::update:copy")
-    upd2 = [c for c in s.calls if c.callee == "vfps::KickMap::updateSM"]
-    chk.check(len(upd2) == 1 and (not cp or upd2[0].node["id"] > cp[0].node["id"]), "R3", wu.where, "the source map is rebuilt after the offsets were copied", "WakePotentialMap::update:updateSM")
+    oc = offset_copy_from_field(s)
+    ok = oc is not None and oc[3] and oc[0] == "wakePotential(_field)"
+    nstores = [a for a in s.accesses if a.kind == "store" and a.base == "_offset" and a.idx is not None and getattr(a, "from_bulk", None) is None]
+    chk.check(ok and len(nstores) <= (0 if cp else 1), "R3", wu.where, "the kick offsets are the field's wake potential, copied without arithmetic", "WakePotentialMap::update:copy")
+    # after the offsets changed the source map is rebuilt on every path to the exit (an early return in between leaves the old table in force)
+    gw = Fl_.CFG(wu)
+    is_upd = Fl_.is_call_to("vfps::KickMap::updateSM")
+    mn_u, mx_u = gw.count_on_paths(is_upd)
+    chk.check(mn_u is not None and mn_u >= 1, "R3", wu.where, "the source map is rebuilt on every path through update() (min %s, max %s calls of updateSM)" % (mn_u, mx_u),
+              "WakePotentialMap::update:updateSM")
     ax_w, _ = c08.class_axis(prog, "vfps::WakePotentialMap")
     ax_r, _ = c08.class_axis(prog, "vfps::RFKickMap")
     chk.check(ax_w == ax_r == "y", "R3", wu.where, "wake kick and RF kick act on the same (energy) axis through KickMap (%s, %s)" % (ax_w, ax_r), "kick-axes:%s:%s" % (ax_w, ax_r))
